@@ -1,4 +1,5 @@
 SPECIFICATION Spec
 CONSTANT Variant <- MCAsBuilt
+CONSTANT InfoVariant <- MCShared
 INVARIANT TypeOK
 INVARIANT InvC20Report
